@@ -11,6 +11,7 @@ import (
 	"fmt"
 	"io"
 
+	"github.com/flanglet/kanzi-go/v2/bitstream"
 	kio "github.com/flanglet/kanzi-go/v2/io"
 )
 
@@ -268,6 +269,137 @@ func runReaderFault(r rfCase) (fl *Fail, nt bool) {
 
 var famRF = NewFamily("C08.reader", runReaderFault)
 
+// ---- bitstream level: the k-th call of the sink / source under a DefaultOutput/InputBitStream fails ----
+
+type bsFaultCase struct {
+	Dir    string `json:"dir"` // "out" | "in"
+	Buf    uint   `json:"buffer"`
+	Pre    uint   `json:"prefix_bits"`
+	ArrLen int    `json:"array_bytes"`
+	Cut    uint   `json:"array_bits_less"` // the array op transfers 8*ArrLen-Cut bits
+	Kind   string `json:"kind"`            // "err-once" | "persist" | "partial-persist" | "data+err-once"
+	K      int    `json:"k"`
+}
+
+func (b bsFaultCase) String() string {
+	return fmt.Sprintf("%s|%d|%d|%d|%d|%s|%d", b.Dir, b.Buf, b.Pre, b.ArrLen, b.Cut, b.Kind, b.K)
+}
+
+// bsProgram runs prefix bits, one array transfer, 13 more bits and Close on an output bitstream
+// over sk; returns whether any operation reported a failure (panic or Close error) and whether
+// some Close returned nil.
+func bsOutProgram(b bsFaultCase, sk io.WriteCloser, arr []byte) (reported, closeOK bool) {
+	obs, err := bitstream.NewDefaultOutputBitStream(sk, b.Buf)
+	if err != nil {
+		panic("harness: " + err.Error())
+	}
+	step := func(f func()) {
+		defer func() {
+			if r := recover(); r != nil {
+				reported = true
+			}
+		}()
+		f()
+	}
+	if b.Pre > 0 {
+		step(func() { obs.WriteBits(0x5555555555555555, b.Pre) })
+	}
+	step(func() { obs.WriteArray(arr, uint(8*len(arr))-b.Cut) })
+	step(func() { obs.WriteBits(0x1ABC, 13) })
+	for i := 0; i < 2 && !closeOK; i++ {
+		step(func() {
+			if e := obs.Close(); e != nil {
+				reported = true
+			} else {
+				closeOK = true
+			}
+		})
+	}
+	return
+}
+
+var famBSFault = NewFamily("C08.bitstream", func(b bsFaultCase) (*Fail, bool) {
+	arr := genRandom(b.ArrLen, uint64(b.ArrLen))
+	if b.Dir == "out" {
+		ref := &faultSink{plan: map[int]string{}, from: -1}
+		bsOutProgram(b, ref, arr)
+		sk := &faultSink{plan: map[int]string{}, from: -1}
+		switch b.Kind {
+		case "err-once":
+			sk.plan[b.K] = "err"
+		case "persist":
+			sk.from = b.K
+		case "partial-persist":
+			sk.plan[b.K] = "partial"
+			sk.from = b.K + 1
+		}
+		reported, closeOK := bsOutProgram(b, sk, arr)
+		if sk.faults == 0 {
+			return nil, false
+		}
+		complete := bytes.Equal(sk.buf.Bytes(), ref.buf.Bytes())
+		if !reported && !complete {
+			return failf("bitstream-sink-failure-never-reported kind="+b.Kind, "%s: the sink rejected %d write(s), no operation panicked and Close returned nil, yet the sink holds %d of %d bytes", b, sk.faults, sk.buf.Len(), ref.buf.Len()), true
+		}
+		if closeOK && !complete && b.Kind != "err-once" {
+			return failf("bitstream-close-ok-while-sink-keeps-failing kind="+b.Kind, "%s: Close returned nil although the sink still rejects writes (%d of %d bytes arrived)", b, sk.buf.Len(), ref.buf.Len()), true
+		}
+		return nil, true
+	}
+	// input side: bytes = prefix + array + tail written by a healthy output bitstream
+	w := &memSink{}
+	bsOutProgram(bsFaultCase{Buf: 65536, Pre: b.Pre, Cut: b.Cut}, w, arr)
+	src := &faultSrc{data: w.Bytes(), plan: map[int]string{}, from: -1}
+	switch b.Kind {
+	case "err-once":
+		src.plan[b.K] = "err"
+	case "data+err-once":
+		src.plan[b.K] = "data+err"
+	case "persist":
+		src.from = b.K
+	}
+	ibs, err := bitstream.NewDefaultInputBitStream(src, b.Buf)
+	if err != nil {
+		return failf("harness", "%v", err), false
+	}
+	reported := false
+	var pre, tail uint64
+	got := make([]byte, len(arr))
+	step := func(f func()) {
+		defer func() {
+			if r := recover(); r != nil {
+				reported = true
+			}
+		}()
+		f()
+	}
+	if b.Pre > 0 {
+		step(func() { pre = ibs.ReadBits(b.Pre) })
+	}
+	if !reported {
+		step(func() { ibs.ReadArray(got, uint(8*len(arr))-b.Cut) })
+	}
+	if !reported {
+		step(func() { tail = ibs.ReadBits(13) })
+	}
+	if src.faults == 0 {
+		return nil, false
+	}
+	if reported {
+		return nil, true
+	}
+	// nothing was reported: then every bit delivered must be right
+	okArr := true
+	full := (8*len(arr) - int(b.Cut)) / 8
+	if !bytes.Equal(got[:full], arr[:full]) {
+		okArr = false
+	}
+	if (b.Pre > 0 && pre != 0x5555555555555555&(1<<b.Pre-1)) || !okArr || tail != 0x1ABC {
+		return failf("bitstream-source-failure-gives-wrong-bits kind="+b.Kind, "%s: the source failed %d time(s), no read panicked, and the bits delivered are wrong (array ok=%v, tail %#x)", b, src.faults, okArr, tail), true
+	}
+	return nil, true
+})
+
 func countSinkCalls(data []byte, p Params) int {
 	sk := &memSink{}
 	w, err := kio.NewWriterWithCtx(sk, p.ctx())
@@ -281,7 +413,7 @@ func countSinkCalls(data []byte, p Params) int {
 
 func init() {
 	register("C08", "fault_enumeration", func(c *Ctx) {
-		c.Rule("E2: for every k in the fault-free run's sink/source call sequence: the k-th underlying Write/Read fails x kind {(0,err) once, partial+persistent, persistent, Close fails once, two transient} x jobs 1..4 x caller policy {stop and Close, ignore and continue then Close, Close retried}; end-marker sweep (data lengths that put the buffer flush inside the end-of-stream marker written by Close). E1: every task x every shared-stream operation failing, under every interleaving (jobs 2 and 3), incl. the calling goroutine's own operations. Oracle: no panic escapes; a sink failure is reported by some call; Close returns nil only if the sink holds exactly the complete stream; a source failure never becomes a clean EOF with missing data. Non-trivial = a fault was actually delivered")
+		c.Rule("E2: for every k in the fault-free run's sink/source call sequence: the k-th underlying Write/Read fails x kind {(0,err) once, partial+persistent, persistent, Close fails once, two transient} x jobs 1..4 x caller policy {stop and Close, ignore and continue then Close, Close retried}; end-marker sweep (data lengths that put the buffer flush inside the end-of-stream marker written by Close); 8 blocks of 1 MiB (several sink writes per block through the bulk paths of WriteArray), every sink call failing once / for good; bitstream level: DefaultOutput/InputBitStream (buffers 1024, 4096) running prefix bits + one array transfer (9 sizes, whole and 3 bits short, 6 alignments) + 13 bits + Close over a sink/source whose k-th call fails, every k x 3 kinds - a failure must surface as a panic or a Close error unless every byte arrived, and unreported source failures must not change a delivered bit. E1: every task x every shared-stream operation failing, under every interleaving (jobs 2 and 3), incl. the calling goroutine's own operations. Oracle: no panic escapes; a sink failure is reported by some call; Close returns nil only if the sink holds exactly the complete stream; a source failure never becomes a clean EOF with missing data. Non-trivial = a fault was actually delivered")
 		c.Assume("a sink that accepts part of a buffer and then fails is only enumerated together with a persistent failure (retrying a partially accepted buffer is outside what io.Writer lets the library know)")
 		// ---- E1 part ----
 		specs := faultScenarios(c, true)
@@ -318,6 +450,22 @@ func init() {
 					}
 				}
 			}
+			// blocks whose compressed size is several times the 256 KiB bitstream buffer: the bulk
+			// paths of WriteArray (aligned and unaligned, depending on where the block starts) issue
+			// several sink writes per block; every one of them fails, once or for good
+			for _, jobs := range []uint{1, 2, 4} {
+				p := Params{"NONE", "NONE", MB, jobs, 0, -1, false, false}
+				n := 8*MB + 4321
+				ncalls := countSinkCalls(shape("random", n), p)
+				c.Extra(fmt.Sprintf("sink_calls_fault_free_b%d_j%d", MB, jobs), ncalls)
+				for k := 0; k < ncalls; k++ {
+					for _, kind := range []string{"err-once", "persist"} {
+						for _, pol := range []string{"stop", "close-twice"} {
+							emit(wfCase{P: p, Len: n, Kind: kind, K: k, Policy: pol, Parts: n})
+						}
+					}
+				}
+			}
 			// end-marker sweep: one block, the stream length crosses the flush threshold of the
 			// 256 KiB bitstream buffer byte by byte; every sink call after the first one fails.
 			for _, jobs := range []uint{1, 2} {
@@ -325,6 +473,25 @@ func init() {
 					p := Params{"NONE", "NONE", 512 * 1024, jobs, 0, -1, false, false}
 					emit(wfCase{P: p, Len: l, Kind: "persist", K: 0, Policy: "stop", Parts: l})
 					emit(wfCase{P: p, Len: l, Kind: "err-once", K: 0, Policy: "close-twice", Parts: l})
+				}
+			}
+		})
+		famBSFault.Each(c, 0, func(emit func(bsFaultCase)) {
+			for _, buf := range []uint{1024, 4096} {
+				for _, pre := range []uint{0, 1, 5, 8, 63, 64} {
+					for _, n := range []int{8, 1000, int(buf) - 8, int(buf), int(buf) + 1, 2 * int(buf), 3*int(buf) + 5, 5 * int(buf), 9*int(buf) - 8} {
+						for _, cut := range []uint{0, 3} {
+							calls := (n+16)/int(buf-8) + 3
+							for k := 0; k < calls; k++ {
+								for _, kind := range []string{"err-once", "persist", "partial-persist"} {
+									emit(bsFaultCase{Dir: "out", Buf: buf, Pre: pre, ArrLen: n, Cut: cut, Kind: kind, K: k})
+								}
+								for _, kind := range []string{"err-once", "persist", "data+err-once"} {
+									emit(bsFaultCase{Dir: "in", Buf: buf, Pre: pre, ArrLen: n, Cut: cut, Kind: kind, K: k})
+								}
+							}
+						}
+					}
 				}
 			}
 		})
